@@ -99,6 +99,16 @@ theorem wolfecubic_uninitialised_witness :
   norm_num [wolfecubicJ, wolfeBracket, wolfeSelect, wolfeZoom, linObj, junkW, Vec.axpy, Vec.dot, Vec.get, Vec.norm1,
     Scalar.abs, Scalar.zero, Scalar.ofRat, wolfeMaxIter, wolfeC1, wolfeC2]
 
+/-- non-vacuity of `wolfecubic_single_strong_wolfe` (Lemmas/LineSearches.lean): `f(x) = x²`, `x = 1`, `d = -2`, first trial
+`t = 1/2` lands on the minimiser: accepted outright, both Wolfe conditions hold -/
+example :
+    let o : Objective Rat := ⟨fun x => Vec.get x 0 * Vec.get x 0, fun x => [2 * Vec.get x 0], fun _ => true, false, [], []⟩
+    (wolfeBracket o [1] [-2] 1 (Vec.dot [2] [-2]) junkW wolfeMaxIter 0 (1/2) Scalar.zero 1 [2]
+      (o.f (Vec.axpy [1] (1/2) [-2])) (o.grad (Vec.axpy [1] (1/2) [-2])) (Vec.dot (o.grad (Vec.axpy [1] (1/2) [-2])) [-2])).single = true ∧
+    (wolfecubicJ id junkW o [1] 1 [-2] [2] (1/2)).point = [0] := by
+  norm_num [wolfecubicJ, wolfeBracket, wolfeSelect, junkW, Vec.axpy, Vec.dot, Vec.get, Vec.norm1,
+    Scalar.abs, Scalar.zero, Scalar.ofRat, wolfeMaxIter, wolfeC1, wolfeC2]
+
 /-- **dlinmin_contract.**  The modelled `dlinmin` (bracketing + Brent with derivatives, any initial bracket)
 satisfies the contract; its no-increase part needs no hypothesis on the direction at all. -/
 theorem dlinmin_contract (ax bx : Rat) : LSContract (dlinmin ax bx) := by
